@@ -1246,15 +1246,28 @@ func (g Gateway) DestroyBulk(stream hydrapb.HydraideService_DestroyBulkServer) e
 		go func() {
 			defer wg.Done()
 			for target := range workCh {
-				swampName := name.Load(target.GetSwampName())
-				swampInterface, err := hydraInterface.SummonSwamp(stream.Context(), target.GetIslandID(), swampName)
-				if err != nil {
-					failed.Add(1)
-					lastError.Store(fmt.Sprintf("%s: %v", target.GetSwampName(), err))
-					continue
-				}
-				swampInterface.Destroy()
-				destroyed.Add(1)
+				// The handler's own recover does not cover this goroutine: a panic here (for
+				// example name.Load on a swamp name with fewer than three parts) would take the
+				// whole server process down. Every target is processed under its own recover
+				// and a panicking target is reported as failed.
+				func() {
+					defer func() {
+						if r := recover(); r != nil {
+							failed.Add(1)
+							lastError.Store(fmt.Sprintf("%s: %v", target.GetSwampName(), r))
+							slog.Error("grpc gateway panic in DestroyBulk worker", "error", r, "swamp_name", target.GetSwampName())
+						}
+					}()
+					swampName := name.Load(target.GetSwampName())
+					swampInterface, err := hydraInterface.SummonSwamp(stream.Context(), target.GetIslandID(), swampName)
+					if err != nil {
+						failed.Add(1)
+						lastError.Store(fmt.Sprintf("%s: %v", target.GetSwampName(), err))
+						return
+					}
+					swampInterface.Destroy()
+					destroyed.Add(1)
+				}()
 			}
 		}()
 	}
